@@ -16,7 +16,20 @@ theorem allKeeps_succ (n : Nat) (ih : AllKeeps T cfg g n) : AllKeeps T cfg g (n 
   · intros; rw [resolve.eq_def]; (try simp only []); (repeat' keeps_step) <;> (first | keeps_ih ih | (simp only [Nat.succ_eq_add_one, Nat.add_right_cancel_iff] at *; subst_vars; keeps_ih ih))
   · intros; rw [afterPart.eq_def]; (try simp only []); (repeat' keeps_step) <;> (first | keeps_ih ih | (simp only [Nat.succ_eq_add_one, Nat.add_right_cancel_iff] at *; subst_vars; keeps_ih ih))
   · intros; rw [resolveRest.eq_def]; (try simp only []); (repeat' keeps_step) <;> (first | keeps_ih ih | (simp only [Nat.succ_eq_add_one, Nat.add_right_cancel_iff] at *; subst_vars; keeps_ih ih))
-  · intros; rw [callFunc.eq_def]; (try simp only []); (repeat' keeps_step) <;> (first | keeps_ih ih | (simp only [Nat.succ_eq_add_one, Nat.add_right_cancel_iff] at *; subst_vars; keeps_ih ih))
+  · -- `callFunc`: the recursion counter goes up before the call and down after it, on every path
+    intro f args
+    rw [callFunc.eq_def]
+    simp only []
+    split
+    · split
+      · refine keepsTop_bind (keepsTop_getFrame _) fun fr => ?_
+        by_cases hc : fr.macroDepth + 1 > maxMacroDepth
+        · simp only [hc, if_true]
+          exact keepsTop_depthRefuse _ _
+        · simp only [hc, if_false]
+          exact keepsTop_depthBracket _ (ih.callMacro _ _ _)
+      · exact ih.callMacro _ _ _
+    · exact keepsTop_xerr _ _ (by decide)
   · intros; rw [callMacro.eq_def]; (try simp only []); (repeat' keeps_step) <;> (first | keeps_ih ih | (simp only [Nat.succ_eq_add_one, Nat.add_right_cancel_iff] at *; subst_vars; keeps_ih ih))
   · intros; rw [evalDefaults.eq_def]; (try simp only []); (repeat' keeps_step) <;> (first | keeps_ih ih | (simp only [Nat.succ_eq_add_one, Nat.add_right_cancel_iff] at *; subst_vars; keeps_ih ih))
   · intros; rw [callSuper.eq_def]; (try simp only []); (repeat' keeps_step) <;> (first | keeps_ih ih | (simp only [Nat.succ_eq_add_one, Nat.add_right_cancel_iff] at *; subst_vars; keeps_ih ih))
